@@ -281,15 +281,19 @@ func (m *MdnsManager) AnnounceMdnsEntry() error {
 
 	serviceName := m.serviceName
 
-	if err := provider.Announce(serviceName, m.port, txt); err != nil {
+	err := provider.Announce(serviceName, m.port, txt)
+
+	// the announcement has been requested, even if it could not be carried out right now:
+	// the avahi provider keeps it and makes it once the daemon is back, so it has to be
+	// withdrawn and updated like one that was made
+	m.mux.Lock()
+	m.setIsServiceAnnounce(true)
+	m.mux.Unlock()
+
+	if err != nil {
 		logging.Log().Debug("mdns: failure announcing service", err)
 		return err
 	}
-
-	m.mux.Lock()
-	defer m.mux.Unlock()
-
-	m.setIsServiceAnnounce(true)
 
 	return nil
 }
